@@ -13,28 +13,28 @@
 (*                                                                                      *)
 (* How the code forms the examined paths (both matching handlers):                      *)
 (*     paths = []                                                                       *)
-(*     if hasattr(event, "dest_path"): paths.append(fsdecode(event.dest_path))          *)
+(*     if event.dest_path:  [was: if hasattr(event, "dest_path"):]                       *)
+(*                                     paths.append(fsdecode(event.dest_path))          *)
 (*     if event.src_path:              paths.append(fsdecode(event.src_path))           *)
-(* dest_path is a dataclass field of EVERY event (default ""), so the first test is      *)
-(* always true: the examined paths are <<dest, src>> or <<dest>>, and for every event    *)
-(* that is not a move the first of them is the EMPTY string, a placeholder rather than a *)
-(* path of the event.  FixD13 = TRUE models `if event.dest_path:` instead.               *)
+(* dest_path is a dataclass field of EVERY event (default ""), so the first test was     *)
+(* always true: the examined paths were <<dest, src>> or <<dest>>, and for every event   *)
+(* that is not a move the first of them was the EMPTY string, a placeholder rather than a*)
+(* path of the event.  Repaired in /repo (4264f5e: `if event.dest_path:`).               *)
+(* FixEmptyDest = TRUE is the repaired code (all default configs); FixEmptyDest = FALSE  *)
+(* switches the old behaviour back on (Handlers_neg_EmptyDest.cfg, must FAIL):           *)
 (*   - pattern handler: harmless. PurePath("").match(k) is False for every pattern k    *)
 (*     (axiom EmptyMatchesNoPattern, validated against pathlib by checks/c15.py), and    *)
-(*     any() over the yielded path strings ignores "" anyway: C15_PatternDecision is    *)
-(*     stated over the event's real (non-empty) paths and holds for either setting.      *)
+(*     any() over the yielded path strings ignores "" anyway: C15_PatternDecision holds  *)
+(*     for either setting.                                                               *)
 (*   - regex handler: NOT harmless. re.match(r, "") holds for every regex that can match *)
-(*     the empty string (".*", "[^.]*$", "(?!.*\.tmp$).*", ...): an include regex of that *)
-(*     kind dispatches every non-move event, an ignore regex of that kind suppresses     *)
-(*     every non-move event, whatever the event's real path is.  StrictPaths selects the *)
-(*     reading of "its paths" in C15_RegexDecision: TRUE = the non-empty paths of the     *)
-(*     event; FALSE = the paths as the code forms them.  (FixD13, StrictPaths) = (FALSE,  *)
-(*     FALSE) describes the current tree; Handlers_neg_D13.cfg = (FALSE, TRUE) must fail. *)
+(*     the empty string (".*", "[^.]*$", "(?!.*\.tmp$).*", ...): an include regex of that*)
+(*     kind dispatched every non-move event, an ignore regex of that kind suppressed      *)
+(*     every non-move event, whatever the event's real path was.                          *)
+(* "Its paths" in the property = the non-empty ones of src_path / dest_path (RealRows).  *)
 EXTENDS Naturals, Sequences, FiniteSets, TLC
 
 CONSTANTS MaxPat,        \* longest explicit include / exclude list
-          FixD13,        \* FALSE: dest_path is always examined (current code); TRUE: only when non-empty
-          StrictPaths    \* reading of "its paths" for the regex rule (see above)
+          FixEmptyDest   \* TRUE: dest_path is examined only when non-empty (current code); FALSE: always (old code)
 
 Classes == {"FileDeleted", "FileModified", "FileCreated", "FileMoved", "FileClosed", "FileClosedNoWrite", "FileOpened",
             "DirDeleted", "DirModified", "DirCreated", "DirMoved"}
@@ -66,11 +66,11 @@ VARIABLES hk,        \* "base" | "pattern" | "regex"
           pc, calls
 vars == <<hk, cls, igndir, cs, srcNE, destNE, incAbs, excAbs, Inc, Exc, pc, calls>>
 
-\* the paths as the unfixed code forms them: row 1 = dest_path (possibly the empty placeholder), row 2 = src_path
+\* the paths as the OLD code formed them: row 1 = dest_path (possibly the empty placeholder), row 2 = src_path
 AllRows == IF srcNE THEN {1, 2} ELSE {1}
 RowNonEmpty(p) == IF p = 1 THEN destNE ELSE srcNE
 RealRows == {p \in AllRows : RowNonEmpty(p)}          \* the event's own (non-empty) paths
-ExaminedRows == IF FixD13 THEN RealRows ELSE AllRows   \* what the handler looks at
+ExaminedRows == IF FixEmptyDest THEN RealRows ELSE AllRows   \* what the handler looks at
 
 Matrices(np, nk) == [1..np -> [1..nk -> BOOLEAN]]
 AnyInc(p) == \E k \in DOMAIN Inc[p] : Inc[p][k]
@@ -138,7 +138,7 @@ PatternRule == ~Ignored /\ \E p \in RealRows : AnyInc(p) /\ ~AnyExc(p)
 C15_PatternDecision == (Done /\ hk = "pattern") => (Dispatched <=> PatternRule)
 \* no path matches an ignore regex and some path matches an include regex
 RegexRule(rows) == ~Ignored /\ ~(\E p \in rows : AnyExc(p)) /\ (\E p \in rows : AnyInc(p))
-C15_RegexDecision == (Done /\ hk = "regex") => (Dispatched <=> RegexRule(IF StrictPaths THEN RealRows ELSE AllRows))
+C15_RegexDecision == (Done /\ hk = "regex") => (Dispatched <=> RegexRule(RealRows))
 \* the flags that must not matter do not matter: case_sensitive only selects the matcher (the matrices)
 C15_IgnoredDirectoryNeverDispatched == (Done /\ hk # "base" /\ Ignored) => ~Dispatched
 
